@@ -2458,6 +2458,14 @@ void mmd_end_complete_html(DString * out, const char * source, scratch_pad * scr
 
 
 void mmd_export_token_tree_html_raw(DString * out, const char * source, token * t, scratch_pad * scratch) {
+
+	// Prevent stack overflow with "dangerous" input causing extreme recursion
+	if (scratch->recurse_depth == kMaxExportRecursiveDepth) {
+		return;
+	}
+
+	scratch->recurse_depth++;
+
 	while (t != NULL) {
 		if (scratch->skip_token) {
 			scratch->skip_token--;
@@ -2467,10 +2475,20 @@ void mmd_export_token_tree_html_raw(DString * out, const char * source, token * 
 
 		t = t->next;
 	}
+
+	scratch->recurse_depth--;
 }
 
 
 void mmd_export_token_tree_html_math(DString * out, const char * source, token * t, scratch_pad * scratch) {
+
+	// Prevent stack overflow with "dangerous" input causing extreme recursion
+	if (scratch->recurse_depth == kMaxExportRecursiveDepth) {
+		return;
+	}
+
+	scratch->recurse_depth++;
+
 	while (t != NULL) {
 		if (scratch->skip_token) {
 			scratch->skip_token--;
@@ -2480,6 +2498,8 @@ void mmd_export_token_tree_html_math(DString * out, const char * source, token *
 
 		t = t->next;
 	}
+
+	scratch->recurse_depth--;
 }
 
 
